@@ -15,14 +15,14 @@ def T(runs, budget):
 
 CHECKS = {
     "C01": {
-        "variants": ["asan-ts"], "level": "exploration",
+        "variants": ["asan-ts", "asan-nots"], "variant_share": {"asan-ts": 0.6, "asan-nots": 0.4}, "level": "exploration",
         "quick": T(20000, 45), "thorough": T(600000, 600),
         "rule": "one run = generated world + config + 1-3 wrapped execv/execve calls (argv/envp shape classes, every exec outcome, 1/3 with sampled I/O faults); "
                 "non-trivial = wrapper entered and recorder reached; distinct = (api, argv/envp shape class, output, filter decision, outcome class, fault yes/no) per call",
         "probes": ["success", "errno_ge_100", "null_argv", "ge_1000_args", "filter_drop", "io_fault_fired"],
     },
     "C04": {
-        "variants": ["asan-ts"], "level": "exploration",
+        "variants": ["asan-ts", "asan-nots"], "variant_share": {"asan-ts": 0.6, "asan-nots": 0.4}, "level": "exploration",
         "quick": T(20000, 45), "thorough": T(600000, 600),
         "rule": "one run = generated world + config (every output incl. path templates, facility x level, ident, error_logging, chains) + one exec (success or failure); all sinks watched; "
                 "non-trivial = decision and sink determined by the model; distinct = (output, decision, message-length bucket, fd-1 kind, outcome, token classes of the format, facility|level, ident/error-logging set, sink usable)",
@@ -56,7 +56,7 @@ CHECKS.update({
         "assumptions": ["no schedule or fault dimension: seeded generation against a sanitizer oracle inside the simulated OS (weak fit, DESIGN 3/C02)"],
     },
     "C05": {
-        "variants": ["asan-ts"], "level": "exploration",
+        "variants": ["asan-ts", "asan-nots"], "variant_share": {"asan-ts": 0.6, "asan-nots": 0.4}, "level": "exploration",
         "quick": T(20000, 45), "thorough": T(600000, 600),
         "rule": "one run = format built from literals, snoopy_literal/env/cmdline/filename tags with values of chosen lengths (value i consists of letter 'a'+i), unknown/empty/unterminated/failing tags, both limits drawn around the produced lengths; record at a file (or devlog ident / path template) compared with the reference expansion when it fits, bounds otherwise; "
                 "non-trivial = at least one tag; distinct = (token-class string of the format, binding limit, output)",
@@ -71,7 +71,7 @@ CHECKS.update({
         "probes": ["long_then_short", "null_after_long", "truncation"],
     },
     "C07": {
-        "variants": ["asan-ts"], "level": "exploration",
+        "variants": ["asan-ts", "asan-nots"], "variant_share": {"asan-ts": 0.6, "asan-nots": 0.4}, "level": "exploration",
         "quick": T(60000, 60), "thorough": T(400000, 600),
         "rule": "one run = a chain, a seeded permutation and a seeded duplication of it, each logged once in the same world; the first 52416 seeds enumerate all chains of <= 3 elements over a 16-spec alphabet (incl. bare argument-taking names and empty elements) x 12 worlds (3 real uids x tty yes/no x listed ancestor yes/no), later seeds draw chains of 0-20 elements from the grammar in generated worlds; "
                 "non-trivial = at least one known filter; distinct = (per-element filter+result string, world class, decision)",
@@ -122,7 +122,7 @@ MANIFEST_TEXT.update({
 })
 CHECKS.update({
     "C03": {
-        "variants": ["asan-ts"], "level": "fault_enumeration", "claims_sanitizer": True,
+        "variants": ["asan-ts", "asan-nots"], "variant_share": {"asan-ts": 0.6, "asan-nots": 0.4}, "level": "fault_enumeration", "claims_sanitizer": True,
         "quick": T(40000, 60), "thorough": T(1200000, 900),
         "rule": "seeds come in families of 400: slot 0 is the fault-free census of one wrapped call in a sampled (world, sink state, output, format) scenario; slots 1..n enumerate every single fault = (intercepted call of the census) x (plausible errno set of that call kind, plus short read/write and early EOF); remaining slots are sampled fault pairs. "
                 "Sink states: healthy, directory absent, EACCES, (nearly) full disk, socket path absent / refused / no permission / queue full and unread / stream-type. non-trivial = the fault fired inside the call (or census); distinct = (scenario, fault kind, n-th, errno)",
@@ -147,7 +147,7 @@ CHECKS.update({
         "quick": T(6000, 80), "thorough": T(200000, 900),
         "rule": "one run = Batch of 2-4 caller threads (thorough: 1 in 50 runs 16-64 threads) each making 1-3 failing wrapped execs with distinct markers, under a seeded schedule that decides the running thread at every scheduling point (mutex lock/unlock before and after, pthread_once, every simulated syscall, call entry/exit); policy per run: random walk, PCT with d priority-change points, long park (seeded thread and point), or single-park enumeration (consecutive seeds park thread t at its k-th point for every (t, k) and run the others to completion); then one lone call. "
                 "tsan-ts: ThreadSanitizer report with a libsnoopy frame (scheduler hand-off is invisible to TSan); both: deadlock, record content per thread, foreign markers, snoopy_threads in [1,n] during the batch and 1 afterwards. non-trivial = at least two threads inside the library at overlapping times; distinct = hash of the schedule trace",
-        "probes": ["long_park", "park_enumeration", "pct_d1", "pct_d2", "blocked_on_mutex"],
+        "probes": ["long_park", "park_enumeration", "pct_d1", "pct_d2", "blocked_on_mutex", "fault_under_concurrency"],
         "assumptions": ["sampling of schedules, not systematic enumeration with a preemption bound", "interleavings inside a region without any intercepted call are not executed; such regions are covered by TSan's happens-before analysis only", "races on memory touched only inside uninstrumented libc are invisible"],
     },
     "C10": {
@@ -210,6 +210,26 @@ MANIFEST_TEXT.update({
     "C19": {"level_text": "same state space as C18: every foreign token and every other line survives disable byte for byte and in order, untouched when absent or refused, enable-then-disable round trip", "level_note": _CTL_ASSUME, "technique": "deterministic simulation (fault-free configuration of the crash simulator) with reference-model refinement; exhaustive small alphabet + seeded generation"},
     "C20": {"level_text": "crash-point enumeration: for each (initial content, operation) the run is killed before every simulated system call and after the last, and every write-type call fails with ENOSPC/EIO/EDQUOT or writes short; the file must then hold the complete previous or the complete new content", "level_note": _CTL_ASSUME, "technique": "deterministic simulation with fault injection: census of simulated system calls, then one run per crash point and per failing write-type call"},
 })
+_TECH = {
+    "C01": "deterministic simulation: production wrappers hosted under a simulated OS with an exec recorder at dlsym(RTLD_NEXT); seeded generation of inputs, configurations, exec outcomes and sampled I/O faults; history oracle",
+    "C02": "deterministic simulation used as a sanitizer harness: seeded and boundary-directed generation of configuration bytes, exec inputs and process states against ASan/UBSan, step cap and watchdog (no schedule or fault dimension)",
+    "C03": "deterministic simulation with fault injection: census of intercepted calls, then every single fault (call x errno set, short/EOF), sampled pairs, sink states; would-block / would-signal / step-bound invariants",
+    "C04": "deterministic simulation: all sinks of the simulated OS watched, record compared with the reference model, bytes counted as delivered only when handed to the simulated kernel before the EXEC event",
+    "C05": "reference-model refinement inside the simulated OS with boundary-directed limits (no schedule or fault dimension)",
+    "C06": "deterministic simulation of call histories in one process image (both builds), earlier calls may carry injected faults; marker and model oracles",
+    "C07": "deterministic simulation: exhaustive small chain alphabet x worlds, seeded beyond; model conjunction, permutation/duplication invariance, silence on drop",
+    "C08": "reference-model refinement of the library's option-value API inside the simulated OS (no schedule or fault dimension)",
+    "C09": "deterministic simulation with a seeded scheduler over real parked threads (random walk, PCT, long park, single-park enumeration) under ThreadSanitizer and AddressSanitizer; exact deadlock detection",
+    "C10": "deterministic simulation: real fork() placed at every scheduling point of a second thread (census, then enumeration), child judged through a pipe, blocking detected without timeouts",
+    "C11": "deterministic simulation of configuration histories (both builds) with a differential oracle against a pristine image of the library in the same simulated OS state",
+    "C12": "deterministic simulation: generated simulated process states, each data source compared with the value derived from the state",
+    "C14": "reference-model refinement over simulated real/effective uids (no schedule or fault dimension)",
+    "C15": "deterministic simulation of /proc ancestor chains incl. unreadable entries; reference walk as oracle",
+    "C16": "deterministic simulation with fault injection: residue snapshots (descriptors, library heap via sanitizer hooks, environ, cwd, umask, signals) over repeated calls, under the single-fault enumeration of C03",
+    "C17": "deterministic simulation with a seeded scheduler switching writers at every simulated system call; per-record syscall oracle and final-content oracle",
+}
+for _k, _v in _TECH.items():
+    MANIFEST_TEXT[_k]["technique"] = _v
 for _e in list(NOT_APPLICABLE):
     if _e["property_id"] in CHECKS:
         NOT_APPLICABLE.remove(_e)
